@@ -33,8 +33,16 @@ ARMS = [
     arm("Noop", "OpCode::Noop"),
     arm("Add", "OpCode::Add", cl2("OpCode::Add")), arm("Sub", "OpCode::Sub", cl2("OpCode::Sub")), arm("Mul", "OpCode::Mul", cl2("OpCode::Mul")),
     arm("Div", "OpCode::Div", cl2("OpCode::Div")), arm("Rem", "OpCode::Rem", cl2("OpCode::Rem")),
-    arm("Exp", "OpCode::Exp(k)", [Closure(0, "b: Value, e: Value", "(r: Option<Value>)", ensures=[C("op", "true", "C10")])], covered=False,
-        loops=[Loop(0, decreases="e@", invariants=[C("consts", "U256::ONE@ == 1 && U256::ZERO@ == 0", "C10")])]),
+    arm("Exp", "OpCode::Exp(k)", [Closure(0, "pb: Value, pe: Value", "(r: Option<Value>)", first_stmt="let b = pb; let e = pe;", ensures=[C("op", "r == sem_bin(OpCode::Exp(gk), pb, pe)", "C10")])],
+        rewrites=[("SUB", "let mut k: u16 = (k as u16)+1;", "let ghost kk = k as nat; let ghost b0 = b@; let ghost e0 = e@; let ghost mut it: nat = 0; let mut k: u16 = (k as u16)+1; proof { vstd::arithmetic::power2::lemma2_to64(); assert(e0 / vstd::arithmetic::power2::pow2(0) == e0); vstd::arithmetic::power::lemma_pow0(b0 as int); assert(1 * vstd::arithmetic::power::pow(b0 as int, e0) == vstd::arithmetic::power::pow(b0 as int, e0)); }"),
+                  ],
+        injects=[Inject("entry", "let ghost gk = k;"), Inject("before_tail", ARM_HINT % "OpCode::Exp(k)"), Inject(("before", "Some(Value::Int(res))"), "proof { vstd::arithmetic::power::lemma_pow0(b@ as int); vstd::arithmetic::power2::lemma_pow2_pos(it); lemma_exp_budget_ok(e0, it, kk); assert(res@ < m256()); vstd::arithmetic::div_mod::lemma_small_mod(res@, m256()); }")],
+        loops=[Loop(0, decreases="e@",
+            body_entry="let ghost ee = e@; let ghost bb = b@; let ghost rr = res@; proof { vstd::arithmetic::power2::lemma_pow2_pos(256); if k == 0 { lemma_exp_budget_fail(e0, kk); assert(exp_sem(b0, e0, kk) is None); } }",
+            body_exit="proof { lemma_exp_step(rr as int, bb as int, ee, m256() as int); vstd::arithmetic::power2::lemma_pow2_unfold((it + 1) as nat); vstd::arithmetic::power2::lemma_pow2_pos(it); vstd::arithmetic::div_mod::lemma_div_denominator(e0 as int, vstd::arithmetic::power2::pow2(it) as int, 2); it = it + 1; }",
+            invariants=[C("consts", "U256::ONE@ == 1 && U256::ZERO@ == 0", "C10"),
+                        C("bits", "e@ == e0 / vstd::arithmetic::power2::pow2(it) && k as nat + it == kk + 1 && it <= kk + 1 && kk <= 255 && gk as nat == kk && as_int(pb) == Some(b0) && as_int(pe) == Some(e0)", "C10"),
+                        C("acc", "(res@ * vstd::arithmetic::power::pow(b@ as int, e@)) % (m256() as int) == vstd::arithmetic::power::pow(b0 as int, e0) % (m256() as int)", "C10")])]),
     arm("And", "OpCode::And", cl2("OpCode::And")), arm("Or", "OpCode::Or", cl2("OpCode::Or")), arm("Xor", "OpCode::Xor", cl2("OpCode::Xor")),
     arm("Not", "OpCode::Not", cl1("OpCode::Not")), arm("Eql", "OpCode::Eql", cl2("OpCode::Eql")), arm("Lt", "OpCode::Lt", cl2("OpCode::Lt")), arm("Gt", "OpCode::Gt", cl2("OpCode::Gt")),
     arm("Shl", "OpCode::Shl", cl2("OpCode::Shl", "x", "offset")), arm("Shr", "OpCode::Shr", cl2("OpCode::Shr", "x", "offset")),
